@@ -342,6 +342,7 @@ pub enum BoardValidationError {
     InvalidCastleRights,
     InvalidEnpassant,
     TooManyPieces,
+    OpponentInCheck,
 }
 
 #[derive(Debug, Clone, Copy, PartialEq, Eq)]
@@ -395,6 +396,13 @@ impl Board {
 
         if self.raw[Color::White].count() > 16 || self.raw[Color::Black].count() > 16 {
             return Err(BoardValidationError::TooManyPieces);
+        }
+
+        // the side that is not to move must not be in check: its king could be captured
+        let mut flipped = *self;
+        flipped.turn = !self.turn;
+        if !flipped.is_legal_king_position(flipped.king_sq(flipped.turn)) {
+            return Err(BoardValidationError::OpponentInCheck);
         }
 
         self.validate_en_passant()?;
